@@ -79,7 +79,7 @@ def binop(op, a, b, t):
         if op == '+': r = a + b
         elif op == '-': r = a - b
         elif op == '*': r = a * b
-        elif op == '/': r = int(a / b) if b else None
+        elif op == '/': r = (abs(a) // abs(b)) * (1 if (a >= 0) == (b >= 0) else -1) if b else None      # exact: truncation toward zero, no floating point
         elif op == '%': r = (abs(a) % abs(b)) * (1 if a >= 0 else -1) if b else None
         elif op == '&': r = a & b
         elif op == '|': r = a | b
